@@ -1,19 +1,26 @@
 import Arimaa.Props.C06
 import Arimaa.Lemmas.RsAgreeOffered
 import Arimaa.Lemmas.RsAgreeStep
+import Arimaa.Gen.Bridge.GameState_can_pass
+import Arimaa.Gen.Bridge.GameState_is_passing_like_action
+import Arimaa.Gen.Bridge.GameState_take_action
+import Arimaa.Gen.Bridge.GameState_valid_actions
+import Arimaa.Gen.Bridge.GameState_valid_actions_
 
 /-!
 # C06 — the property at the level of the REGENERATED code
 
 `Gen/Rs.lean` is written by `tools/rs2lean2.py` from the current text of engine.rs / zobrist.rs on every
-run; `Lemmas/RsAgree*.lean` prove that each regenerated function equals
-`Res.guard (hand panic guard) (hand total function)`.  This file puts the agreement theorems of the
-functions C06 rests on into the property's proof closure and restates them as one named obligation
-(`C06_code_agrees`), plus corollaries that speak about the regenerated functions directly.  A change of
-the Rust text of one of these functions breaks an obligation here without any test having to find the input.
+run.  `Gen/Bridge/<fn>.lean` (generated) proves `@Rs.fn = @RsBase.fn` — the current text against the
+baseline text — and `Lemmas/RsAgree*.lean` prove that each baseline function equals
+`Res.guard (hand panic guard) (hand total function)`.  This file puts both, for the functions C06 rests
+on, into the property's proof closure and restates them as one named obligation (`C06_code_agrees`) about
+the CURRENT functions, plus corollaries that speak about them directly.  A change of the Rust text of one
+of these functions that alters behaviour breaks an obligation here without any test having to find the input.
+(written by tools/mkrprops.py)
 -/
 namespace Arimaa
-open Gen GameState Arimaa.Gen.Rs Arimaa.Rt
+open Gen GameState Arimaa.Gen.Rs Arimaa.Rt Arimaa.Gen.Bridge
 
 theorem C06_value_of_ok {α : Type} {x : Res α} {p : Bool} {v w : α} (h : x = Res.guard p v) (hx : x = .ok w) :
     p = false ∧ w = v := by
@@ -21,15 +28,20 @@ theorem C06_value_of_ok {α : Type} {x : Res α} {p : Bool} {v w : α} (h : x = 
   obtain ⟨hp, hv⟩ := Res.guard_eq_ok.mp hx
   exact ⟨hp, hv.symm⟩
 
-/-- the agreement theorems C06 rests on, as one obligation -/
+/-- the agreement theorems C06 rests on, about the CURRENT functions, as one obligation -/
 theorem C06_code_agrees :
     (∀ (s : GameState) (cr : Bool), GameState_valid_actions_ s cr = Res.guard (s.validActions_Panics cr) (s.validActions_ cr)) ∧
     (∀ (s : GameState) (a : Action), GameState_take_action s a = Res.guard (s.takeActionPanics a) (s.takeAction a)) ∧
     (∀ (s : GameState) (pp : PlayPhase), s.phase = .play pp → ∀ a : Action, GameState_is_passing_like_action s a = Res.guard (s.isPassingLikeActionPanics pp a) (s.isPassingLikeAction pp a)) ∧
     (∀ (s : GameState) (cr : Bool), GameState_can_pass s cr = Res.guard (s.canPassPanics cr) (s.canPass cr)) :=
-  ⟨RsAgree.valid_actions__eq, RsAgree.take_action_eq, RsAgree.is_passing_like_action_eq, RsAgree.can_pass_eq⟩
+  ⟨(by simp only [bridge_GameState_valid_actions_]; exact RsAgree.valid_actions__eq),
+   (by simp only [bridge_GameState_take_action]; exact RsAgree.take_action_eq),
+   (by simp only [bridge_GameState_is_passing_like_action]; exact RsAgree.is_passing_like_action_eq),
+   (by simp only [bridge_GameState_can_pass]; exact RsAgree.can_pass_eq)⟩
 
-theorem C06_code_offered (s : GameState) (l : List Action) (h : GameState_valid_actions s = .ok l) :
-    l = s.validActions := (C06_value_of_ok (RsAgree.valid_actions_eq s) h).2
+theorem C06_code_offered (s : GameState) (r : List Action)
+    (h : GameState_valid_actions s = .ok r) : r = s.validActions := by
+  simp only [bridge_GameState_valid_actions] at h
+  exact (C06_value_of_ok (RsAgree.valid_actions_eq s) h).2
 
 end Arimaa
